@@ -415,6 +415,24 @@ func (f *sessionFam) shutdownDuringHandshake(w *World, a string) bool {
 func oracleC06(f *sessionFam, w *World, res *Result) []Violation {
 	l := &vlist{prop: "C06"}
 	o := f.sc.Opts
+	// sessions and announcements match: what the client table still holds when every client has long gone was
+	// created by some handshake; a session in there that was never announced with a connection event is a session
+	// too many (the registry as such is C04's business)
+	if f.drained {
+		announced := map[string]bool{}
+		for _, e := range w.Evs {
+			if e.Kind == "connection" {
+				announced[e.S] = true
+			}
+		}
+		for _, e := range w.evs("", "final-registry") {
+			for _, id := range e.P {
+				if !announced[id] {
+					l.add("one-session-per-announcement", "unannounced-session-left-in-table", fmt.Sprintf("the client table still holds session %s, which was never announced with a connection event", id))
+				}
+			}
+		}
+	}
 	pi, pt, mb := int64(o.PingIntervalMs), int64(o.PingTimeoutMs), o.MaxBuf
 	if pi == 0 {
 		pi = 25000
